@@ -142,6 +142,21 @@ theorem simulate_pure (h : Hooks S G Tx R Hdr Q A) (st : App S G Tx Hdr) (tx : O
 
 example : (simulate .fixed (markHooks true) ⟨⟨false, false⟩, [], (), (), none, []⟩ (some ())).1.root = ⟨false, false⟩ := by decide
 
+/-- Under the plumbing as it is now a simulated message leaves **no trace of its handler** in the
+node: neither in the working trees (`simulate_pure`) nor in the node-local side state — caches,
+upgrade schedule — which after the call is whatever the ante handler left, for every handler. -/
+theorem simulate_handler_leaves_no_trace (h : Hooks S G Tx R Hdr Q A)
+    (handler' : Tx → Hdr → S → G → S × G × R) (st : App S G Tx Hdr) (tx : Option Tx) :
+    (simulate .fixed { h with handler := handler' } st tx).1.side = (simulate .fixed h st tx).1.side ∧
+    (simulate .fixed { h with handler := handler' } st tx).1.root = (simulate .fixed h st tx).1.root := by
+  cases tx with
+  | none => exact ⟨rfl, rfl⟩
+  | some tx =>
+    simp only [simulate]
+    unfold runTx
+    cases h.validateBasic tx <;> simp
+    split <;> exact ⟨rfl, rfl⟩
+
 /-- The result reported by a simulation is the same under both plumbings (the repair changes only
 where the writes go). -/
 theorem simulate_result_same (h : Hooks S G Tx R Hdr Q A) (st : App S G Tx Hdr) (tx : Option Tx) :
